@@ -6,6 +6,8 @@ package main
 
 import (
 	"fmt"
+	"os"
+	"path/filepath"
 	"strings"
 	"time"
 
@@ -101,6 +103,52 @@ func main() {
 					}
 					c := lcase{Data: data, Query: q.name, SQL: q.sql, Shards: shards, Corrupt: corrupt, Expect: q.expect}
 					runLeafCase(rep, b, c, tr, node, idx, horizon, quiet)
+				}
+			}
+		}
+	}
+	// a leaf whose metadata cannot be read: the table files of the tag value dictionary (family "tv" of the metadata
+	// store) are gone after a restart; a group-by query finds its series and fails when it collects the tag values of
+	// the groups - still exactly one response
+	idx++
+	if f.Mine(idx) && noResponses < 2 {
+		metric := "cpubroken"
+		if err := b.Write(1, []vbox.Point{{Metric: metric, Tags: map[string]string{"host": "a"}, Field: "f1", Type: "sum", Value: 1, Timestamp: base + 5000}}); err != nil {
+			vevid.OpFailed("write: %v", err)
+		}
+		if err := b.Write(2, []vbox.Point{{Metric: metric, Tags: map[string]string{"host": "b"}, Field: "f1", Type: "sum", Value: 2, Timestamp: base + 15000}}); err != nil {
+			vevid.OpFailed("write: %v", err)
+		}
+		for _, sh := range []models.ShardID{1, 2} {
+			if err := b.Flush(sh, tr); err != nil {
+				vevid.OpFailed("flush: %v", err)
+			}
+		}
+		b.Engine.Close()
+		removed := 0
+		_ = filepath.Walk(f.Scratch+"/eng", func(p string, info os.FileInfo, err error) error {
+			if err == nil && !info.IsDir() && strings.HasSuffix(p, ".sst") && filepath.Base(filepath.Dir(p)) == "tv" {
+				if os.Remove(p) == nil {
+					removed++
+				}
+			}
+			return nil
+		})
+		rep.Count("tag_value_tables_removed", int64(removed))
+		nb, err := vbox.Open(b.Dir, b.DBName, b.Opt, b.ShardIDs)
+		if err != nil {
+			// the engine refuses to start without the files: nothing to ask
+			rep.Count("engine_does_not_open_without_tag_value_tables", 1)
+		} else {
+			b.Engine, b.DB = nb.Engine, nb.DB
+			if removed > 0 {
+				for _, q := range []qdef{{"by-host", "select f1 from " + metric + " group by host", "any"}, {"plain", "select f1 from " + metric, "any"},
+					{"filter-hit", "select f1 from " + metric + " where host='a'", "any"}} {
+					for _, shards := range [][]int{{1}, {1, 2}} {
+						idx++
+						c := lcase{Data: "flushed, tag value tables removed", Query: q.name, SQL: q.sql, Shards: shards, Expect: "any"}
+						runLeafCase(rep, b, c, tr, node, idx, horizon, quiet)
+					}
 				}
 			}
 		}
